@@ -5,7 +5,7 @@ jobs=${1:-4}
 cd /verif
 mkdir -p build
 ls seeded | xargs -P "$jobs" -I{} bash -c '
-  id={}; prop=$(python3 -c "import json;print(json.load(open(\"seeded/$id/meta.json\"))[\"breaks_property\"])")
+  id={}; if grep -q "\"retired\"" seeded/$id/meta.json; then echo "$id - RETIRED"; exit 0; fi; prop=$(python3 -c "import json;print(json.load(open(\"seeded/$id/meta.json\"))[\"breaks_property\"])")
   out=$(runner/mutant_eval.sh seeded/$id/patch.diff $prop 2>&1 | grep -E "^(OK|VIOLATION|MACHINERY|PATCH)" | head -1 | cut -c1-120)
   echo "$id $prop ${out:-NO-VERDICT}"
 ' > build/seeded_sweep.txt 2>&1
